@@ -16,10 +16,12 @@ def render(spell=None):
     s = dict(PLACE)
     s.update(spell or {})
     return f'''struct Inner {{ a: f32, b: vec3<f32> }}
+struct Inner2 {{ a: f32, b: vec3<f32> }}
 struct Host {{
   m0: {s["HA"]},
   m1: {s["HB"]},
   inner: Inner,
+  inner2: Inner2,
   arr_inner: array<Inner, 3>,
   tail: {s["HC"]},
 }}
@@ -89,6 +91,11 @@ def run(ctx):
             assume += h.assumption()
             if k not in plan:
                 assume += pin(h)
+            # types are unique in naga's arena: a symbolic array type is not the template's own `array<Inner, 3>`,
+            # and two symbolic array types are not the same type
+            if h.bases:
+                assume.append(z3.Not(z3.And(h.tdisc == h.TI['Array'], h.base == named['Inner'], h.alen == 3, z3.Not(h.adyn))))
+        assume.append(z3.Not(z3.And(HB.tdisc == HB.TI['Array'], HC.tdisc == HC.TI['Array'], HB.base == HC.base, HB.alen == HC.alen, HB.adyn == HC.adyn)))
         # WGSL: a runtime-sized array may only be the last member (HC) and its element is not itself runtime-sized
         res = ctx.explore(f'structs/symbolic-{"+".join(plan)}',
                           lambda it: it.call('structs', [mkref(module), write_options(S.conv, matrix_vector_types=fmt, **opts_fixed)]),
@@ -152,7 +159,7 @@ def conditions(sts, order, holes, base_match_for):
     conds.append(('Host emitted', B(host is not None)))
     if host:
         names = [f[0] for f in host['fields']]
-        conds.append(('Host: members in declaration order under the same names', B(names == ['m0', 'm1', 'inner', 'arr_inner', 'tail'])))
+        conds.append(('Host: members in declaration order under the same names', B(names == ['m0', 'm1', 'inner', 'inner2', 'arr_inner', 'tail'])))
         fd = {f[0]: f for f in host['fields']}
         if 'm0' in fd:
             conds.append(('Host.m0: element type', HA.matches(decode_type(fd['m0'][2]))))
@@ -160,6 +167,8 @@ def conditions(sts, order, holes, base_match_for):
             conds.append(('Host.m1: element type', HB.matches(decode_type(fd['m1'][2]), base_match=base_match_for(HB))))
         if 'inner' in fd:
             conds.append(('Host.inner: nested struct by name', B(decode_type(fd['inner'][2]) == {'struct': 'Inner'})))
+        if 'inner2' in fd:
+            conds.append(('Host.inner2: nested struct by its own name (a second struct with an identical body)', B(decode_type(fd['inner2'][2]) == {'struct': 'Inner2'})))
         if 'arr_inner' in fd:
             conds.append(('Host.arr_inner: array of struct keeps its length', B(decode_type(fd['arr_inner'][2]) == {'array': 3, 'elem': {'struct': 'Inner'}})))
         if 'tail' in fd:
@@ -171,7 +180,7 @@ def conditions(sts, order, holes, base_match_for):
                               z3.And(is_rt, B(marked), base_match_for(HC)(HC.base, sem['rt']))))
             else:
                 conds.append(('Host.tail: element type', z3.And(z3.Not(is_rt), B(fd['tail'][1] == []), HC.matches(sem, base_match=base_match_for(HC)))))
-        for n in ('m0', 'm1', 'inner', 'arr_inner'):
+        for n in ('m0', 'm1', 'inner', 'inner2', 'arr_inner'):
             if n in fd:
                 conds.append((f'Host.{n}: no stray attribute', B(fd[n][1] == [])))
     vin = sts.get('VIn')
@@ -186,6 +195,7 @@ def conditions(sts, order, holes, base_match_for):
                         and same(got[2][1], 'Float', 4, 0))))
     inner = sts.get('Inner')
     conds.append(('Inner emitted once with its members', B(inner is not None and [f[0] for f in inner['fields']] == ['a', 'b'] and 'duplicates' not in inner)))
+    conds.append(('Inner2 emitted once', B('Inner2' in sts and 'duplicates' not in sts['Inner2'])))
     return conds
 
 
